@@ -246,6 +246,42 @@ def _lrepr_nil(_: None, **__) -> str:
     return "nil"
 
 
+_STR_ESCAPES = {
+    '"': '\\"',
+    "\\": "\\\\",
+    "\a": "\\a",
+    "\b": "\\b",
+    "\f": "\\f",
+    "\n": "\\n",
+    "\r": "\\r",
+    "\t": "\\t",
+    "\v": "\\v",
+}
+_HEX_DIGITS = frozenset("0123456789abcdefABCDEF")
+
+
+def _escape_str(s: str) -> str:
+    """Escape the characters of `s` so the reader will read back the same string.
+
+    Characters without a named escape which are not printable are written as
+    ``\\uXXXX`` or ``\\UXXXXXXXX``. The reader consumes every hex digit following
+    such an escape, so a hex digit directly after one is escaped as well."""
+    chars = []
+    after_unicode_escape = False
+    for c in s:
+        if (escaped := _STR_ESCAPES.get(c)) is not None:
+            chars.append(escaped)
+            after_unicode_escape = False
+        elif c.isprintable() and not (after_unicode_escape and c in _HEX_DIGITS):
+            chars.append(c)
+            after_unicode_escape = False
+        else:
+            cp = ord(c)
+            chars.append(f"\\u{cp:04x}" if cp <= 0xFFFF else f"\\U{cp:08x}")
+            after_unicode_escape = True
+    return "".join(chars)
+
+
 @lrepr.register(str)
 def _lrepr_str(
     o: str, human_readable: bool = False, print_readably: bool = PRINT_READABLY, **_
@@ -254,8 +290,7 @@ def _lrepr_str(
         return o
     if print_readably is None or print_readably is False:
         return o
-    escaped = o.encode("unicode_escape").replace(b'"', rb"\"").decode("utf-8")
-    return f'"{escaped}"'
+    return f'"{_escape_str(o)}"'
 
 
 @lrepr.register(list)
